@@ -169,6 +169,10 @@ def step (s : St) (toks : List String) : St × String :=
        | some dbl, some t, some [X1, Y1, X2, Y2, x], some r, some f, some y =>
          (s, toString (Sif.Spec.C03.swapBoundOK dbl t X1 Y1 X2 Y2 x r f y))
        | _, _, _, _, _, _ => (s, "bad-op"))
+  | ["chk", "c03.below", _tag, y, bal] =>
+      (match parseNat y, parseNat bal with
+       | some y, some bal => (s, toString (Sif.Spec.C03.belowBalanceOK y bal))
+       | _, _ => (s, "bad-op"))
   | ["chk", "c04.backing", _tag, R, A, P, R', A', P'] =>
       (match parseNat R, parseNat A, parseNat P, parseNat R', parseNat A', parseNat P' with
        | some R, some A, some P, some R', some A', some P' => (s, toString (Sif.Spec.C04.backingOK R A P R' A' P'))
